@@ -40,19 +40,37 @@ var solvers = []solverSpec{
 	{"z3-4.8.12", func(f string, t int) []string { return []string{"/usr/bin/z3", fmt.Sprintf("-T:%d", t), f} }},
 }
 
-func (v *Verifier) smtText(o *Obligation, withModel bool) string {
+func (v *Verifier) smtText(o *Obligation, withModel bool) string { return v.smtTextKeep(o, withModel, nil) }
+
+func (v *Verifier) smtTextKeep(o *Obligation, withModel bool, keep map[int]bool) string {
 	var b strings.Builder
 	if withModel {
 		b.WriteString("(set-option :produce-models true)\n")
 	}
 	b.WriteString("(set-logic ALL)\n")
 	b.WriteString("; obligation " + o.Name + "\n; " + strings.ReplaceAll(o.Src, "\n", " ") + "\n")
-	b.WriteString(v.g.Preamble(o.ExpSat))
+	var body strings.Builder
+	for _, d := range v.pureDefs {
+		body.WriteString(d + "\n")
+	}
+	if o.Root != nil {
+		for idx, it := range o.Root.items[:o.N] {
+			if keep != nil && it.Kind == "assume" && !keep[idx] {
+				continue
+			}
+			body.WriteString(it.Text + "\n")
+		}
+	}
+	body.WriteString(o.Goal)
+	b.WriteString(v.g.PreambleFor(o.ExpSat, body.String()))
 	for _, d := range v.pureDefs {
 		b.WriteString(d + "\n")
 	}
 	if o.Root != nil {
-		for _, it := range o.Root.items[:o.N] {
+		for idx, it := range o.Root.items[:o.N] {
+			if keep != nil && it.Kind == "assume" && !keep[idx] {
+				continue
+			}
 			if o.ExpSat && it.Kind == "assume" && (strings.Contains(it.Text, "(forall ") || strings.Contains(it.Text, "(exists ")) {
 				continue // smoke checks run without quantified facts (see DESIGN 5.2)
 			}
@@ -108,7 +126,58 @@ func runSolver(s solverSpec, file string, timeoutS int) (string, string, float64
 	return "error", text, secs
 }
 
-// solveOne tries the portfolio on one obligation.
+type attempt struct {
+	label  string
+	solver solverSpec
+	file   string
+	sliced bool
+}
+
+type attemptResult struct {
+	a    attempt
+	st   string
+	out  string
+	secs float64
+}
+
+func runSolverCtx(ctx context.Context, s solverSpec, file string, timeoutS int) (string, string, float64) {
+	cctx, cancel := context.WithTimeout(ctx, time.Duration(timeoutS+3)*time.Second)
+	defer cancel()
+	args := s.cmd(file, timeoutS)
+	cmd := exec.CommandContext(cctx, args[0], args[1:]...)
+	var out bytes.Buffer
+	cmd.Stdout = &out
+	cmd.Stderr = &out
+	t0 := time.Now()
+	_ = cmd.Run()
+	secs := time.Since(t0).Seconds()
+	text := out.String()
+	first := ""
+	for _, l := range strings.Split(text, "\n") {
+		l = strings.TrimSpace(l)
+		if l == "" || strings.HasPrefix(l, "WARNING") {
+			continue
+		}
+		first = l
+		break
+	}
+	switch first {
+	case "sat", "unsat", "unknown":
+		return first, text, secs
+	case "timeout":
+		return "unknown", text, secs
+	}
+	if ctx.Err() != nil {
+		return "cancelled", text, secs
+	}
+	if cctx.Err() != nil || strings.Contains(text, "interrupted by timeout") {
+		return "unknown", "timeout\n" + text, secs
+	}
+	return "error", text, secs
+}
+
+// solveOne races the portfolio on one obligation: a relevance-sliced query (sound, fewer hypotheses) and the full query on
+// all three solvers. The first decisive answer wins: unsat from any attempt proves; sat counts only from a full query.
 func (v *Verifier) solveOne(o *Obligation, dir string, timeoutS int) *SolveResult {
 	res := &SolveResult{Obl: o}
 	file := filepath.Join(dir, mangle(o.Name)+".smt2")
@@ -120,42 +189,69 @@ func (v *Verifier) solveOne(o *Obligation, dir string, timeoutS int) *SolveResul
 		res.Output = err.Error()
 		return res
 	}
-	want := "unsat"
-	bad := "sat"
+	want, bad := "unsat", "sat"
 	if o.ExpSat {
 		want, bad = "sat", "unsat"
 	}
+	var atts []attempt
+	if o.ExpSat {
+		atts = append(atts, attempt{solvers[0].name, solvers[0], file, false})
+	} else {
+		if o.Root != nil && o.N > 60 {
+			keep := o.Root.relevantAssumptions(o, 3, 2.0)
+			sfile := filepath.Join(dir, mangle(o.Name)+".sliced.smt2")
+			if os.WriteFile(sfile, []byte(v.smtTextKeep(o, false, keep)), 0o644) == nil {
+				atts = append(atts, attempt{fmt.Sprintf("sliced(%d/%d)-%s", len(keep), o.N, solvers[0].name), solvers[0], sfile, true})
+			}
+		}
+		for _, s := range solvers {
+			atts = append(atts, attempt{s.name, s, file, false})
+		}
+	}
+	ctx, cancel := context.WithCancel(context.Background())
+	defer cancel()
+	ch := make(chan attemptResult, len(atts))
+	for _, a := range atts {
+		go func(a attempt) {
+			st, out, secs := runSolverCtx(ctx, a.solver, a.file, timeoutS)
+			ch <- attemptResult{a, st, out, secs}
+		}(a)
+	}
 	var lastOut string
-	for _, s := range solvers {
-		st, out, secs := runSolver(s, file, timeoutS)
-		res.Secs += secs
-		res.Tried = append(res.Tried, fmt.Sprintf("%s:%s:%.2fs", s.name, st, secs))
-		lastOut = out
-		if st == "error" && s.name != "z3-5.1.0" {
-			// cvc5 rejects some z3-specific syntax; an error of a secondary solver is not a verdict
+	decided := false
+	for i := 0; i < len(atts); i++ {
+		r := <-ch
+		if r.st == "cancelled" {
 			continue
 		}
-		if st == want {
-			res.Status = "proved"
-			res.Solver = s.name
-			res.Output = out
-			return res
+		res.Secs += r.secs
+		res.Tried = append(res.Tried, fmt.Sprintf("%s:%s:%.2fs", r.a.label, r.st, r.secs))
+		if decided {
+			continue
 		}
-		if st == bad {
-			res.Status = "failed"
-			res.Solver = s.name
-			res.Output = out
+		lastOut = r.out
+		switch {
+		case r.st == want:
+			res.Status, res.Solver, res.Output = "proved", r.a.label, r.out
+			decided = true
+			cancel()
+		case r.st == bad && !r.a.sliced:
+			res.Status, res.Solver, res.Output = "failed", r.a.label, r.out
 			if !o.ExpSat {
-				res.Model = out
+				res.Model = r.out
 			}
-			return res
+			decided = true
+			cancel()
+		case r.st == "error" && r.a.solver.name == solvers[0].name && !r.a.sliced:
+			res.Status, res.Solver, res.Output = "error", r.a.label, r.out
+			// keep waiting: another solver may still decide
 		}
-		if st == "error" {
-			res.Status = "error"
-			res.Solver = s.name
-			res.Output = out
-			return res
-		}
+	}
+	if decided {
+		return res
+	}
+	if res.Status == "error" {
+		return res
 	}
 	res.Status = "unknown"
 	res.Output = lastOut
@@ -194,4 +290,11 @@ func (v *Verifier) solveAll(obls []*Obligation, dir string, timeoutS int, par in
 	}
 	wg.Wait()
 	return out
+}
+
+func minInt(a, b int) int {
+	if a < b {
+		return a
+	}
+	return b
 }
